@@ -23,6 +23,8 @@ Nothing is compared with the specification here (that is C01/C05): only sibling 
           a swap that is followed by a restore on every success path, or the store of an opener whose saved signature
           goes into the returned access object and whose closer restores from it; `mem::swap` pairs likewise; the
           D-Bus array reader calls `end()` (the closer) before it reports the end of the array
+  POS     every sub-decoder the D-Bus reader builds (struct field, variant value) starts either at the parent's pos on the
+          parent's bytes and hands its pos back by `=`, or at 0 on a sub-slice and hands it back by `+=`, on every success path
   LEN     `Data::deserialize_for_signature` / `deserialize_with_seed` return `(value, de.0.pos)` of the decoder that was
           driven, per format arm; each format arm builds that format's decoder and wraps it in the matching variant;
           `Data::deserialize` / `deserialize_for_dynamic_signature` return those functions' results
@@ -91,7 +93,7 @@ def de_layout(ctx, f, spec, m, depth=0):
     if fwd and depth < 2 and not [c for c in mir.calls(body) if c.is_("next_const_size_slice", "next_slice")]:
         tgt = fwd[0].callee.rsplit("::deserialize_", 1)[1]
         ok = lc.returns_call(body, fwd[0]) and lc.self_path(body, fwd[0].args[0]) == []
-        b2, lay = de_layout(ctx, f, spec, tgt, depth + 1)
+        b2, lay, _via = de_layout(ctx, f, spec, tgt, depth + 1)
         return body, (lay if ok else {}), "deserialize_" + tgt
     out = {}
     reads = [c for c in mir.calls(body) if lc.read_kind(c)]
@@ -462,32 +464,92 @@ def sib3(ctx, f, spec):
 RESTORE_FIELDS = ("array_signature", "key_signature")
 
 
-def classify_sig_store(body, rv):
-    """'restore' | 'copyback' | 'child'"""
+def root_is_self(body, l, depth=0):
+    if l == 1:
+        return True
+    if depth > 4 or 0 < l <= body.d["argc"]:
+        return False
+    ds = [d for d in mir.defs_of(body, l) if d[0] == "assign" and not d[3][1]]
+    if len(ds) != 1:
+        return False
+    rv = ds[0][4]
+    if rv[0] == "ref":
+        return root_is_self(body, rv[2][0], depth + 1)
+    if rv[0] == "use" and mir.op_place(rv[1]) is not None:
+        return root_is_self(body, mir.op_place(rv[1])[0], depth + 1)
+    return False
+
+
+def load_kind(body, op, depth=0):
+    """How the value of an operand was loaded, stopping at the first field read:
+    ('restore-field', point) | ('self-signature', point) | ('other-signature', point) | None.
+    point = (block, idx) of the assignment that performed the load into a local (None = read in place)."""
+    pl = mir.op_place(op)
+    if pl is None or depth > 6:
+        return None
+    fs = lc.deref_fields(pl)
+    if fs:
+        if fs[-1] in RESTORE_FIELDS:
+            return ("restore-field", None)
+        if fs[-1] == "signature":
+            return ("self-signature" if root_is_self(body, pl[0]) else "other-signature", None)
+        return None
+    ds = [d for d in mir.defs_of(body, pl[0]) if d[0] == "assign" and not d[3][1]]
+    if len(ds) != 1:
+        return None
+    rv = ds[0][4]
+    k = None
+    if rv[0] == "use":
+        k = load_kind(body, rv[1], depth + 1)
+    elif rv[0] == "ref":
+        k = load_kind(body, ["c", rv[2]], depth + 1)
+    if k is not None and k[1] is None:
+        k = (k[0], (ds[0][1], ds[0][2]))
+    return k
+
+
+def classify_sig_store(body, s):
+    """'restore' | 'copyback' | 'child' for a store (b, i, place, rv, line) to the signature cursor"""
+    rv = s[3]
     if rv[0] != "use":
         return "child"
-    op = rv[1]
-    pl = lc.place_of(body, op)
-    if pl is not None:
-        fs = lc.deref_fields(pl)
-        if fs and fs[-1] in RESTORE_FIELDS:
-            return "restore"
-        if fs and fs[-1] == "signature":
-            # `self.0.signature = dbus_de.0.signature` (sub-engine) or a saved local loaded from the field
-            return "copyback"
-        # a named local that was loaded from the signature field / from a restore field
-        if not pl[1] or pl[1] == ["*"]:
-            for d in mir.defs_of(body, pl[0]):
-                if d[0] == "assign" and d[4][0] == "use":
-                    p2 = mir.op_place(d[4][1])
-                    f2 = lc.deref_fields(p2) if p2 else []
-                    if f2 and (f2[-1] == "signature" or f2[-1] in RESTORE_FIELDS):
-                        return "restore"
+    k = load_kind(body, rv[1])
+    if k is None:
+        return "child"
+    if k[0] == "restore-field":
+        return "restore"
+    if k[0] == "other-signature":
+        return "copyback"
+    if k[0] == "self-signature" and k[1] is not None and k[1] != (s[0], s[1]):
+        return "restore"   # a copy of the cursor saved earlier in this function
     return "child"
 
 
-def sib4(ctx, f, tag, crate_files):
+def shared_cursor_sites(f, filename):
+    """Calls in the array/dict access types of one engine file that hand the *parent* engine itself (a re-borrow of a
+    self-rooted place, not a freshly built sub-engine) to the element's Serialize / DeserializeSeed: with such a site,
+    whatever an element leaves in the signature cursor is what the next element starts from."""
+    out = []
+    for b in f.all_bodies("zvariant"):
+        if b.file != filename:
+            continue
+        adt = (b.d.get("impl_adt") or "").rsplit("::", 1)[-1]
+        if not any(x in adt for x in ("Seq", "Array", "Map")) or adt.startswith("StructSeq"):
+            continue
+        for c in mir.calls(b):
+            fn = c.c.get("fn") or ""
+            if fn not in ("serde_core::ser::Serialize::serialize", "serde_core::de::DeserializeSeed::deserialize"):
+                continue
+            pl = lc.place_of(b, c.args[-1])
+            if pl is not None and root_is_self(b, pl[0]) and lc.deref_fields(pl):
+                out.append(c)
+    return out
+
+
+def sib4(ctx, f, tag, crate_files, skip=()):
     n = 0
+    judged = set()
+    shared = {fn: shared_cursor_sites(f, fn) for fn in crate_files}
     openers = {}
     closers = {}
     for b in f.all_bodies("zvariant"):
@@ -505,7 +567,11 @@ def sib4(ctx, f, tag, crate_files):
         if not stores and not swaps:
             continue
         root = f.bodies.get(b.root, b)
-        kinds = [(classify_sig_store(b, s[3]), s) for s in stores]
+        judged.add(root.id)
+        if root.id in skip:
+            n += len(stores) + len(swaps)
+            continue
+        kinds = [(classify_sig_store(b, s), s) for s in stores]
         restores = {s[0] for k, s in kinds if k in ("restore",)}
         for k, s in kinds:
             n += 1
@@ -527,23 +593,22 @@ def sib4(ctx, f, tag, crate_files):
                 saved = False
                 for bi, i, pl, rv, ln in mir.assignments(b):
                     if rv[0] == "agg" and rv[1] == "adt" and "array_signature" in (rv[5] or []):
-                        op = rv[4][rv[5].index("array_signature")]
-                        l = mir.root_local(b, op)
-                        o = lc.place_of(b, op)
-                        src_ok = False
-                        for d in mir.defs_of(b, l if o is None or o[1] else o[0]):
-                            if d[0] == "assign" and d[4][0] == "use" and lc.reads_field(b, d[4][1], "signature") and \
-                                    mir.dominates(b, (d[1], d[2]), (s[0], s[1])):
-                                src_ok = True
-                        if o is not None and lc.deref_fields(o)[-1:] == ["signature"]:
-                            src_ok = False  # read at aggregate time = already overwritten
-                        saved = saved or src_ok
+                        k2 = load_kind(b, rv[4][rv[5].index("array_signature")])
+                        if k2 is not None and k2[0] == "self-signature" and k2[1] is not None and \
+                                mir.dominates(b, k2[1], (s[0], s[1])) and k2[1] != (s[0], s[1]):
+                            saved = True
                 if saved:
                     ok = True
                     why = "opener: previous signature saved (before the store) into the returned object's array_signature"
                     openers.setdefault(b.d.get("impl_adt"), []).append(b)
+                elif not shared.get(b.file):
+                    ok = True
+                    why = ("child signature installed and not restored, but this engine never hands its own cursor to successive "
+                           "elements (every element gets a fresh sub-engine): nothing can observe it")
                 else:
-                    why = "a child signature is installed and neither restored on every success path nor saved for a closer"
+                    why = ("a child signature is installed and neither restored on every success path nor saved for a closer, while "
+                           "%d array/dict element site(s) of this engine (e.g. %s) hand this same cursor to the next element" % (
+                               len(shared[b.file]), shared[b.file][0].where))
             ctx.ob("SIB-4", tag + inst + ":swap-restored", ok, why, where)
         if swaps:
             n += len(swaps)
@@ -554,7 +619,7 @@ def sib4(ctx, f, tag, crate_files):
             ctx.ob("SIB-4", tag + K(root, "mem::swap-paired"), ok,
                    "%d mem::swap(s) on the signature: each first swap is undone by a second one on every success path" % len(swaps), swaps[0].where)
     ctx.floor("SIB-4", tag + "stores/swaps of the signature cursor", n, 8)
-    return openers, closers
+    return judged
 
 
 def sib4_pairs(ctx, f, tag):
@@ -683,6 +748,65 @@ def len_rule(ctx, f, tag=""):
                "Data::%s returns Data::%s(self, ..)" % (name, tgt), b.where)
 
 
+# ============================================================================================ POS (sub-decoder hand-over, D-Bus reader)
+def pos_rule(ctx, f, tag=""):
+    """Every sub-decoder the D-Bus reader builds (struct field, variant value) either starts at the parent's pos on the
+    parent's bytes and hands its final pos back by plain assignment, or starts at 0 on a sub-slice and hands its pos
+    back by `+=`; the hand-back happens on every success path after the element was decoded."""
+    n = 0
+    for b in f.all_bodies("zvariant"):
+        if b.file != "zvariant/src/dbus/de.rs" or b.name == "new":
+            continue
+        for bi, i, pl, rv, ln in mir.assignments(b):
+            if not (rv[0] == "agg" and rv[1] == "adt" and rv[2] == lc.DE_COMMON and "pos" in (rv[5] or [])):
+                continue
+            # the call that drives the sub-decoder: a DeserializeSeed::deserialize whose decoder argument is the local built here
+            sub = None
+            for b2, i2, pl2, rv2, ln2 in mir.assignments(b):
+                if rv2[0] == "agg" and rv2[1] == "adt" and rv2[2] == lc.DBUS_DE and mir.root_local(b, rv2[4][0]) == pl[0] and not pl2[1]:
+                    sub = pl2[0]
+            if sub is None and not pl[1]:
+                sub = pl[0]
+            drives = [c for c in mir.calls(b) if (c.c.get("fn") or "").endswith("DeserializeSeed::deserialize") and
+                      (lambda p: p is not None and p[0] == sub)(lc.place_of(b, c.args[-1]))]
+            if not drives:
+                continue
+            n += 1
+            root = f.bodies.get(b.root, b)
+            where = "%s:%d" % (b.file, ln)
+            posop = rv[4][rv[5].index("pos")]
+            bytesop = rv[4][rv[5].index("bytes")]
+            k = mir.resolve_const(b, posop)
+            absolute = k is None and lc.reads_field(b, posop, "pos") and lc.reads_field(b, bytesop, "bytes")
+            bo = mir.origin(b, bytesop)
+            vb = lc.value_source(b, bytesop)
+            relative = k is not None and k.get("v") == 0 and vb[0] == "call" and vb[1].callee == "zvariant::utils::subslice"
+            arm = lc.arm_of(b, f, bi, adt="zvariant::de::ValueParseStage")
+            inst = K(root, "sub-decoder" + (":" + ",".join(sorted(arm)) if arm else ""))
+            ctx.ob("POS", tag + inst + ":start", absolute or relative,
+                   "sub-decoder starts %s" % ("at the parent's pos on the parent's bytes" if absolute else
+                                              "at 0 on a sub-slice" if relative else "neither at the parent's pos nor at 0 of a sub-slice"), where)
+            stores = [s for s in lc.field_writes(b, "pos", lc.DE_COMMON) if lc.always_preceded(b, s[0], {c.b for c in drives})]
+            good = []
+            for s in stores:
+                if s[3][0] != "use":
+                    continue
+                if absolute and lc.reads_field(b, s[3][1], "pos") and (lambda p: p is not None and p[0] == sub)(lc.place_of(b, s[3][1])):
+                    good.append(s)
+                if relative:
+                    src = mir.op_place(s[3][1])
+                    sd = mir.single_def(b, src[0]) if src else None
+                    if sd and sd[0] == "assign" and sd[4][0] == "bin" and sd[4][1] in ("Add", "AddWithOverflow"):
+                        pa, pb = lc.place_of(b, sd[4][2]), lc.place_of(b, sd[4][3])
+                        if pa is not None and pb is not None and lc.deref_fields(pa)[-1:] == ["pos"] and lc.deref_fields(pb)[-1:] == ["pos"] \
+                                and {pa[0] == sub, pb[0] == sub} == {True, False}:
+                            good.append(s)
+            ok = bool(good) and all(lc.always_followed(b, c.b, {s[0] for s in good}) for c in drives)
+            ctx.ob("POS", tag + inst + ":hand-back", ok,
+                   "parent.pos %s sub.pos on every success path after the element was decoded" % ("=" if absolute else "+="), where)
+    ctx.floor("POS", tag + "sub-decoders built by the D-Bus reader", n, 2)
+
+
 DBUS_FILES = ("zvariant/src/dbus/ser.rs", "zvariant/src/dbus/de.rs")
 GV_FILES = ("zvariant/src/gvariant/ser.rs", "zvariant/src/gvariant/de.rs")
 
@@ -700,12 +824,13 @@ def run(ctx):
     lays = sib1(ctx, f, spec)
     sib2(ctx, f, spec)
     sib3(ctx, f, spec)
-    sib4(ctx, f, "", DBUS_FILES)
+    judged = sib4(ctx, f, "", DBUS_FILES)
     sib4_pairs(ctx, f, "")
     len_rule(ctx, f)
+    pos_rule(ctx, f)
     f2 = ctx.facts("K2")
     lays2 = sib1(ctx, f2, spec, "K2:")
     sib1_gv(ctx, f2, spec, lays2)
-    sib4(ctx, f2, "K2:", DBUS_FILES + GV_FILES)
+    sib4(ctx, f2, "K2:", DBUS_FILES + GV_FILES, skip=judged)
     sib4_pairs(ctx, f2, "K2:")
     len_rule(ctx, f2, "K2:")
